@@ -683,13 +683,13 @@ func writeEvidence(rep *Report, obligations, discharged int, backends map[string
 	for _, k := range sortedKeys(rep.Trusted) {
 		trusted = append(trusted, k)
 	}
-	var assumptions []string
+	assumptions := []string{}
 	for _, k := range sortedKeys(rep.Assume) {
 		assumptions = append(assumptions, k)
 	}
 	assumptions = append(assumptions, propertyAssumptions[rep.Prop]...)
 	sort.Strings(rep.Funcs)
-	var kf []string
+	kf := []string{}
 	for k := range knownPrinted {
 		kf = append(kf, k)
 	}
